@@ -3,8 +3,14 @@
 DS = "deterministic simulation with fault injection"
 
 ENGINES = [
+    {"name": "proversim", "path": "sim/proversim.py",
+     "serves_properties": ["C02", "C03", "C16"],
+     "kind_free_text": "byzantine second party: one honest run gives the constraint system, operand wires and hint "
+                       "wires; dishonest provers lie on hint wires (wire lies decided by evaluating the recorded "
+                       "system on the edited assignment with forward re-derivation of dependent hints; shadow lies "
+                       "re-executed through the library with ignore_errors on); the verifier is constraint evaluation"},
     {"name": "tracesim", "path": "sim/tracesim.py",
-     "serves_properties": ["C01", "C04", "C06", "C08"],
+     "serves_properties": ["C01", "C04", "C06", "C08", "C10", "C11"],
      "kind_free_text": "in-process deterministic simulation: seeded plan (program + inputs + fault schedule) "
                        "generated as data, compiled to Python source, executed against a fresh import of the real "
                        "pysnark with the real backend module wrapped by a recorder; invariants after every event"},
@@ -23,7 +29,32 @@ NOT_APPLICABLE = [
 
 _T = "seeded search over event histories and fault schedules (deterministic simulation, fault injection)"
 
+_P = "seeded search over lying-prover fault schedules (deterministic simulation, byzantine fault injection)"
+
 CHECK_META = {
+    "C02": {"engine": "proversim", "design_ref": "3/C02", "technique": _P,
+            "text": "search for a second satisfying assignment with unchanged operands and a different result: every "
+                    "hint wire x ~40 candidate lies incl. field quotients, with forward re-derivation, adjacent pairs, "
+                    "shadow lies; sound alarms (the replay is a second assignment), incomplete search",
+            "note": "a clean batch says nothing about provers needing >= 3 coordinated non-local lies; two open known "
+                    "findings (bitwise ops with a plain int; unbounded divmod quotient)"},
+    "C03": {"engine": "proversim", "design_ref": "3/C03", "technique": _P,
+            "text": "per assertion kind and operand vector on both sides of the relation: run-time verdict vs circuit "
+                    "verdict with honest hints vs circuit under lying prover with checks removed; sampling",
+            "note": "relation truth is taken from the run-time check itself (the property equates the two)"},
+    "C16": {"engine": "proversim", "design_ref": "3/C16", "technique": _P,
+            "text": "width actually enforced against a prover who removed the Python checks and lies on hints; round "
+                    "trips of to_bits/from_bits and packer schemas as sampled by-product",
+            "note": "packer schemas up to depth 3 and 24 bits"},
+    "C10": {"engine": "tracesim", "design_ref": "3/C10", "technique": _T + "; independent decoder of the artefacts",
+            "text": "histories interleaving public/private allocations, real prove() into a scratch directory, "
+                    "independent decoder, comparison with the recorder's event log; sampling",
+            "note": "nLabels and the wire-to-label section content are not compared with anything"},
+    "C11": {"engine": "tracesim", "design_ref": "3/C11", "technique": _T + "; independent decoder; twin runs",
+            "text": "as C10 for three field configurations plus twin runs on private values for the verifier file; "
+                    "sampling",
+            "note": "FlatBuffers bytes are produced by the stub builder under verif/stubs/py: byte layout of the real "
+                    "library is not checked"},
     "C01": {"engine": "tracesim", "design_ref": "3/C01", "technique": _T,
             "text": "seeded histories of API events incl. false guards, caught errors and backend-seam aborts; every "
                     "emitted constraint evaluated on an independently recorded assignment after every statement; "
